@@ -99,13 +99,15 @@ def run(ctx) -> None:
     vc = pi.methods["_visit_children"]
     ctx.analysed(vc)
     g = cfg_of(vc)
-    loops = [n for n in g.nodes if n.kind == "for" and "enumerate(node.children)" in norm(n.ast.iter)]
+    vpar = vc.node.args.args[1].arg
+    loops = [n for n in g.nodes if n.kind == "for" and f"enumerate({vpar}.children)" in norm(n.ast.iter)
+             and isinstance(n.ast.target, ast.Tuple) and len(n.ast.target.elts) == 2]
     if not loops:
         ctx.fail("R02b", vc, vc.node, "_visit_children iterates enumerate(node.children)", "children are not visited in sequence order")
     else:
         ctx.ok("R02b", "_visit_children iterates enumerate(node.children)")
         yf = [n for n in g.nodes if any(isinstance(x, ast.YieldFrom) for x in n.walk())]
-        inc = [n for n in g.nodes if n.kind == "stmt" and isinstance(n.ast, ast.AugAssign) and norm(n.ast.target) == "node.child_index"]
+        inc = [n for n in g.nodes if n.kind == "stmt" and isinstance(n.ast, ast.AugAssign) and norm(n.ast.target) == f"{vpar}.child_index"]
         inst = "_visit_children: child_index incremented only after the child's generator is exhausted"
         body_yf = [y for y in yf if g.edge_dominates(loops[0].id, "loop", y.id)]
         if inc and body_yf and all(any(g.dominates(y, i) for y in body_yf) for i in inc) and len(inc) == 1 \
@@ -114,7 +116,8 @@ def run(ctx) -> None:
         else:
             ctx.fail("R02b", vc, vc.node, inst, "a child can be counted as done before it finished (it would be skipped after a live edit) "
                      "or is counted twice")
-        skip = [n for n in g.nodes if n.kind == "test" and "inx < node.child_index" in norm(n.ast)]
+        ivar = norm(loops[0].ast.target.elts[0])
+        skip = [n for n in g.nodes if n.kind == "test" and norm(n.ast) in (f"{ivar} < {vpar}.child_index", f"{vpar}.child_index > {ivar}")]
         if skip and g.search([(skip[0].id, "T")], lambda n: any(n.id == y.id for y in body_yf), blocked=lambda n: n.id == loops[0].id) is None:
             ctx.ok("R02b", "_visit_children skips children below child_index")
         else:
